@@ -263,8 +263,10 @@ func testC12(t *testing.T, redisMode bool) {
 					}()
 				}
 			}
+			roundStart := time.Now()
 			close(start)
 			wg.Wait()
+			roundWall := time.Since(roundStart)
 			if len(regErrs) > 0 && !regTimedOut {
 				c.failf("round %d: %d simultaneous registrations of one new client (and, in odd rounds, of two clients of a collection nobody has named before): %d of them were refused (each succeeds in every one-at-a-time order): %v", r, 1+r%3, len(regErrs), regErrs[0])
 			}
@@ -280,6 +282,14 @@ func testC12(t *testing.T, redisMode bool) {
 					c.failf("round %d: client %d: RPC error under concurrency: %v", r, j.cl.idx, j.ex.rpcErr)
 				}
 				for k, e := range j.ex.errPacks {
+					if strings.Contains(e, "fail to lock") && roundWall > 4*time.Second {
+						// The server gives up on a lock after waiting for its lease time (5 s). A round of a handful of
+						// requests that takes that long means the machine is stalled, not that somebody keeps the lock
+						// (a lock that is really kept shows in the next round and in the checks after it, which send
+						// their requests to a server that is otherwise idle): inconclusive, never a violation.
+						col.Label("round-took-longer-than-the-lock-lease(machine-overloaded)")
+						c.rt.Skip(fmt.Sprintf("round %d took %v and a request gave up on the lock: machine overloaded", r, roundWall.Round(time.Millisecond)))
+					}
 					c.failf("round %d: client %d: the server refused the sync of %s under concurrency: %s", r, j.cl.idx, k, e)
 				}
 				w.apply(j.cl, j.ex)
